@@ -382,6 +382,7 @@ def finish(b, extra_phys=False):
             outs['Zn'] = ocp.sample(Z, grid='control')[1]
             outs['Zi'] = ocp.sample(Z, grid='integrator')[1]
     b.phys_names = list(outs.keys())
+    b.phys_exprs = {k: ca.MX(v) for k, v in outs.items()}
     b.phys_shapes = {k: ca.MX(v).shape for k, v in outs.items()}
     F = ca.Function('phys', [x, p], [ca.MX(v) for v in outs.values()], {'allow_free': True})
     b.free = []
